@@ -1,13 +1,16 @@
-"""Unit `asyncdevw` (C20): FuseDevWriter::async_commit (src/transport/fusedev/mod.rs, `mod async_io`) - the one async transport
-function whose behaviour differs from its sync twin in a way the server-level argument depends on.
+"""Unit `asyncdevw` (C20, C04): the async half of FuseDevWriter (src/transport/fusedev/mod.rs, `mod async_io`): async_write, async_write2,
+async_write3, async_write_all, async_write_from_at and async_commit, each against THE CONTRACT OF ITS SYNC TWIN as proved in unit
+`fusedevw` (same clause text, built by the same functions: write / write_all / write_from_at / commit), with the same view of a writer
+and the same ghost device log.  The accounting functions they call (check_available_space, account_written, ..) are assumed with the
+contracts proved in `fusedevw`.
 
-The abstract Writer of unit `asyncsrv` assumes for async_commit the contract chosen by `commit_gated(root)`:
+async_commit: the abstract Writer of unit `asyncsrv` assumes for it the contract chosen by `commit_gated(root)`:
   * gated   (text starts with `if !self.buffered { return Ok(0); }`, like the sync commit): the contract of the sync commit;
   * ungated (the text as of 60f75a4): ONE device write of own ++ other's bytes whenever there are any - also on a writer that is NOT
     buffered, i.e. whose bytes already went to the device with the preceding async_write / async_write_all.
-Here the real text is verified against that choice with the device write as a capability (`dev_write_ok`, unit `fusedevw`): if the
-probe said "gated" for a text that still writes when unbuffered, the [devwrite] obligation fails.  (The other direction - probe says
-"ungated", text is gated - only makes the server-level contract stricter than necessary.)"""
+Here the real text is verified against that choice with the device write as a capability (`dev_write_ok`) and as an entry of the ghost
+device log: if the probe said "gated" for a text that still writes when unbuffered, the [devwrite] obligation fails.  (The other
+direction - probe says "ungated", text is gated - only makes the server-level contract stricter than necessary.)"""
 import re
 
 from vx.api import Unit, Fn, Copy, Raw, Group
@@ -16,6 +19,50 @@ from vx.units import fusedevw as FW
 
 F = FW.F
 SC = "impl<'a, S: BitmapSlice> FuseDevWriter<'a, S>"
+
+ASYNC_MODEL = r'''
+// nix::sys::uio::pwrite(fd, buf, 0) on the /dev/fuse descriptor: a device write like nix::unistd::write (same capability, same log entry)
+pub mod nix { pub mod sys { pub mod uio {
+    use vstd::prelude::*;
+    use super::super::super::{RawFd, Errno, DevLog, DevWrite, dev_write_ok};
+    #[verifier::external_body] pub fn pwrite(fd: RawFd, buf: &[u8], off: i64, Tracked(dl): Tracked<&mut DevLog>) -> (r: core::result::Result<usize, Errno>)
+        requires dev_write_ok(fd, buf@), // [devwrite]
+        ensures r is Ok ==> r->Ok_0 == buf@.len() && final(dl).log == old(dl).log.push(DevWrite { fd: fd, bytes: buf@ }),
+                r is Err ==> final(dl).log == old(dl).log,
+    { unimplemented!() }
+} } }
+// crate::file_buf::FileVolatileBuf: (address, bytes already valid, capacity) - an async read appends at address + size, up to capacity
+#[verifier::external_body] pub struct FileVolatileBuf { _p: usize }
+impl FileVolatileBuf {
+    pub uninterp spec fn addr(&self) -> int;
+    pub uninterp spec fn size(&self) -> nat;
+    pub uninterp spec fn cap(&self) -> nat;
+}
+// `FileVolatileBuf::from_raw_ptr(V.as_mut_ptr()[.add(OFF)], SIZE, CAP)` (ABSTRACT, logged): a buffer of CAP bytes, OFF bytes into V's
+// allocation, of which the first SIZE count as filled.  The reader may write [OFF+SIZE, OFF+CAP): inside the allocation, and behind the
+// bytes V has accounted - both PROVED at the call (the same two obligations as for the sync window, vx_spare_slice).  `SIZE <= CAP` is the
+// assert! of from_raw_ptr.
+#[verifier::external_body] pub fn vx_spare_buf(off: usize, size: usize, cap: usize, v: &mut Vec<u8>) -> (r: FileVolatileBuf)
+    requires size <= cap, // [C04.fdw.write_from.window_assert]
+             off + cap <= spec_capacity(old(v)), // [C04.fdw.write_from.in_bounds]
+             off + size >= old(v)@.len(), // [C04.fdw.write_from.behind_accounted]
+    ensures final(v)@ == old(v)@, same_alloc(final(v), old(v)), r.addr() == vec_base(old(v)) + off, r.size() == size, r.cap() == cap,
+{ unimplemented!() }
+// crate::file_traits::AsyncFileReadWriteVolatile: a dependency.  ASSUMED: Ok(n) => n <= the room of the buffer, exactly the n bytes behind
+// its valid part were filled and nothing else was touched
+pub trait AsyncFileReadWriteVolatile {
+    fn async_read_at_volatile(&self, buf: FileVolatileBuf, offset: u64) -> (r: (io::Result<usize>, FileVolatileBuf))
+        ensures r.0 is Ok ==> r.0->Ok_0 + buf.size() <= buf.cap();
+}
+'''
+
+CLOSURES = [(r'(?<!res)\.map_err\(\|e\| \{', '.map_err(|e: Errno| -> (q: io::Error) {', 'every: closure types of the errno conversions'),
+            (r'res\.map_err\(\|e\| \{', 'res.map_err(|e: io::Error| -> (q: io::Error) {', 'every: closure types of the final logging closure'),
+            (r'buf = &buf\[n\.\.\]', 'buf = vstd::slice::slice_subrange(buf, n, buf.len())', 'every: &buf[n..] -> vstd slice_subrange (same slice)'),
+            (r'FileVolatileBuf::from_raw_ptr\(\s*self\.buf\.as_mut_ptr\(\)\.add\((.+?)\),\s*((?:[^,()]|\([^()]*\))+?),\s*((?:[^,()]|\([^()]*\))+?)\s*\)(?=\s*\})', r'vx_spare_buf(\1, \2, \3, &mut self.buf)',
+             'every: raw window into the spare capacity -> model call (in bounds, behind the accounted bytes)'),
+            (r'FileVolatileBuf::from_raw_ptr\(\s*self\.buf\.as_mut_ptr\(\),\s*((?:[^,()]|\([^()]*\))+?),\s*((?:[^,()]|\([^()]*\))+?)\s*\)(?=\s*\})', r'vx_spare_buf(0, \1, \2, &mut self.buf)',
+             'every: raw window at the START of the buffer -> model call (in bounds, behind the accounted bytes)')]
 
 
 def commit_gated(root):
@@ -28,41 +75,63 @@ def commit_gated(root):
     return re.match(r'\{\s*if !self\.buffered \{\s*return Ok\(0\);\s*\}', body) is not None
 
 
+def twin(f, rules=(), **kw):
+    f = FW.tok(f, rules=('R18',) + tuple(rules), **kw)
+    f.body_resub = list(f.body_resub) + CLOSURES + FW.EVERY
+    return f
+
+
 def unit(root='/repo'):
     gated = commit_gated(root)
     g = 'old(self).buffered && ' if gated else ''
-    f = Fn(F, SC, 'async_commit',
-           requires=[g + '(old(self).buf@ + other_bytes(other)).len() > 0 ==> dev_write_ok(old(self).fd, old(self).buf@ + other_bytes(other)) // [C20.async_commit.one_write]'],
+    BYTES = 'old(self).buf@ + other_bytes(other)'
+    commit = twin(Fn(F, SC, 'async_commit',
+           requires=[g + '(%s).len() > 0 ==> dev_write_ok(old(self).fd, %s) // [C20.async_commit.one_write]' % (BYTES, BYTES)],
            ensures=['final(self).buf@ == old(self).buf@ && final(self).buffered == old(self).buffered && final(self).fd == old(self).fd // [C20.async_commit.frame]',
-                    ('!old(self).buffered || ' if gated else '') + '(old(self).buf@ + other_bytes(other)).len() == 0 ==> r == Ok::<usize, io::Error>(0usize) // [C20.async_commit.nothing]'],
+                    ('!old(self).buffered || ' if gated else '') + '(%s).len() == 0 ==> r == Ok::<usize, io::Error>(0usize) && %s // [C20.async_commit.nothing]' % (BYTES, FW.LOG_SAME),
+                    # ONE device write of exactly own ++ other's bytes, or none at all when it fails
+                    g + '''(%s).len() > 0 ==> match r {
+                        Ok(n) => n == (%s).len() && final(dl).log == old(dl).log.push(DevWrite { fd: old(self).fd, bytes: %s }),
+                        Err(_) => %s,
+                    } // [C20.async_commit.device]''' % (BYTES, BYTES, BYTES, FW.LOG_SAME)],
            splices=[('^', 'after', 'reveal_with_fuel(ios_concat, 3);'),
                     ('let res = match (self.buf.len(), o.len()) {', 'before',
                      'proof { assert(o@ == other_bytes(other)); assert(self.buf@ + o@ =~= self.buf@ + other_bytes(other)); if self.buf@.len() == 0 { assert(self.buf@ + o@ =~= o@); } if o@.len() == 0 { assert(self.buf@ + o@ =~= self.buf@); } }'),
-                    ('writev(self.fd, &bufs)', 'before', 'proof { assert(ios_concat(bufs@) =~= self.buf@ + o@) by { assert(bufs@.skip(1).skip(1).len() == 0); assert(bufs@.skip(1)[0] == bufs@[1]); } } // [C20.async_commit.order]')],
-           # closure parameter / result types (Verus needs them written out); the closures only log and convert the error
-           body_resub=[(r'(?<!res)\.map_err\(\|e\| \{', '.map_err(|e: Errno| -> (q: io::Error) {', 'every: closure types of the errno conversions'),
-                       (r'res\.map_err\(\|e\| \{', 'res.map_err(|e: io::Error| -> (q: io::Error) {', 'closure types of the final logging closure')],
-           props=['C20'], canary=True)
-    f.rules = ('R18',)
+                    ('writev(self.fd, &bufs, Tracked(dl))', 'before', 'proof { assert(ios_concat(bufs@) =~= self.buf@ + o@) by { assert(bufs@.skip(1).skip(1).len() == 0); assert(bufs@.skip(1)[0] == bufs@[1]); } } // [C20.async_commit.order]')],
+           props=['C20'], canary=True), free=['writev'], path=['pwrite'])
+    ENTRY = ('^', 'after', 'broadcast use axiom_capacity_bound; broadcast use axiom_slice_len;')
+    ENTRY2 = ('^', 'after', 'broadcast use axiom_capacity_bound; broadcast use axiom_slice_len; broadcast use lemma_ios_concat_2; broadcast use lemma_ios_concat_3;')
+    D2, D3 = '(data@ + data2@)', '(data@ + data2@ + data3@)'
+    twins = [
+        twin(Fn(F, SC, 'async_write', splices=[ENTRY], props=['C20'], extra_props=['C20', 'C04'], canary=True, **FW.c_write('async_write')),
+             path=['pwrite'], rules=('R43',)),
+        twin(Fn(F, SC, 'async_write2', props=['C20'], extra_props=['C20', 'C04'], canary=True,
+                splices=[ENTRY2,
+                         ('Ok(len)', 'before', 'proof { assert(self.buf@ =~= old(self).buf@ + %s); assert(self.buf@.take(old(self).buf@.len() as int) =~= old(self).buf@); } // [C04.fdw.async_write2.order]' % D2)],
+                **FW.c_write('async_write2', D2)), free=['writev'], rules=('R43',)),
+        twin(Fn(F, SC, 'async_write3', props=['C20'], extra_props=['C20', 'C04'], canary=True,
+                splices=[ENTRY2,
+                         ('Ok(len)', 'before', 'proof { assert(self.buf@ =~= old(self).buf@ + %s); assert(self.buf@.take(old(self).buf@.len() as int) =~= old(self).buf@); } // [C04.fdw.async_write3.order]' % D3)],
+                **(lambda c: dict(c, requires=c['requires'] + ['data@.len() + data2@.len() + data3@.len() <= usize::MAX // [C04.fdw.async_write3.total_representable]']))(FW.c_write('async_write3', D3))),
+             free=['writev'], rules=('R43',)),
+        twin(Fn(F, SC, 'async_write_all', props=['C20'], extra_props=['C20', 'C04'], canary=True,
+                sig_subst=[('mut buf: &[u8]', 'data: &[u8]')],       # a `mut` parameter has no name for its initial value: rebound at entry
+                attrs=['#[verifier::exec_allows_no_decreases_clause]', '#[verifier::loop_isolation(false)]'],
+                splices=[('^', 'after', 'broadcast use axiom_capacity_bound; let mut buf = data; let ghost all = data@; ' + FW.WRITE_ALL_HINT),
+                         ('while !buf.is_empty() {', 'replace', 'while !buf.is_empty()\n            ' + FW.WRITE_ALL_INV + '\n        {')],
+                **FW.c_write_all('async_write_all')), callees=['async_write']),
+        twin(Fn(F, SC, 'async_write_from_at', props=['C20'], extra_props=['C20', 'C04'], canary=True,
+                splices=[('^', 'after', 'broadcast use axiom_capacity_bound;')],
+                **FW.c_file_xfer('async_write_from_at')), path=['pwrite']),
+    ]
+    base = FW.base_fns(external=True)
     items = [
-        Raw(FW.PRE),
-        Raw('''
-// nix::sys::uio::pwrite(fd, buf, 0) on the /dev/fuse descriptor: a device write like nix::unistd::write (same capability)
-pub mod nix { pub mod sys { pub mod uio {
-    use vstd::prelude::*;
-    #[verifier::external_body] pub fn pwrite(fd: super::super::super::RawFd, buf: &[u8], off: i64) -> (r: core::result::Result<usize, super::super::super::Errno>)
-        requires super::super::super::dev_write_ok(fd, buf@), // [devwrite]
-    { unimplemented!() }
-} } }
-'''),
+        Raw(FW.PRE_COMMON), Raw(FW.DEV_LOG), Raw(FW.MODEL), Raw(ASYNC_MODEL),
         Copy(F, r"pub struct FuseDevWriter<'a, S", subst=[('ManuallyDrop<Vec<u8>>', 'Vec<u8>'), ('S: BitmapSlice = ()', 'S: BitmapSlice')]),
         Copy('src/transport/mod.rs', r"pub enum Writer<'a, S", subst=[('S: BitmapSlice = ()', 'S: BitmapSlice')], prefix='#[verifier::reject_recursive_types(S)]'),
-        Raw('''
-pub open spec fn other_bytes<'a, S: BitmapSlice>(other: Option<&Writer<'a, S>>) -> Seq<u8> {
-    match other { Some(Writer::FuseDev(w)) => w.buf@, _ => Seq::<u8>::empty() }
-}
-'''),
-        Group("impl<'a, S: BitmapSlice> FuseDevWriter<'a, S> {", [f]),
+        Raw(FW.SPEC),
+        # proved in unit `fusedevw` (same clause text), assumed here
+        Group("impl<'a, S: BitmapSlice> FuseDevWriter<'a, S> {", base + twins + [commit]),
     ]
     u = Unit('asyncdevw', items, preludes=['base.rs'], generic_tags={'devwrite': ['C20']},
              notes='async_commit model selected: %s' % ('gated (as sync commit)' if gated else 'UNGATED: writes own ++ other bytes whenever there are any, buffered or not'))
